@@ -136,21 +136,24 @@ Definition prod_st (B : shape) (ns : nat) (idx : list nat) : list nat := np_proj
 Definition scalar_inplace_ok (A B : shape) (ns : nat) : bool :=
   np_inplace_ok (B ++ [ns]) (ins A B).
 
-(* matrix_prod, in-place branch: the phase-state axis of [states] is a CORE dimension
-   (axes (-1,-2)), so the loop shapes are  ins A B  vs  B , and out = states has loop shape B *)
+(* matrix_prod, in-place branch  matmul(bmat, states, axes=[(-2,-1),(-1,-2),(-1,-2)], out=states):
+   the phase-state axis of [states] is a CORE dimension, so the loop shapes are  bmat  vs  B ,
+   and out = states has loop shape B.  mat = ins A B (already re-assigned) and
+   bmat = mat[..., 0, :, :] : the inserted axis standing for the state axis is dropped, only the
+   missing batch axes remain. *)
+Definition mp_bmat (A B : shape) : shape := removelast (ins A B).
 Definition mp_inplace_ok (A B : shape) : bool :=
-  match np_bshape (ins A B) B with Some r => np_out_ok r B | None => false end.
+  match np_bshape (mp_bmat A B) B with Some r => np_out_ok r B | None => false end.
 Definition mp_inplace_op (A B : shape) (bidx : list nat) : list nat :=
-  firstn (length A) (np_proj (ins A B) bidx).
+  firstn (length A) (np_proj (mp_bmat A B) bidx).
 
 Definition all_ones (A : shape) : bool := forallb (Nat.eqb 1) A.
 
 (* result batch shape, operator element and state element read at batch index [bidx].
-   [q] = "the in-place matmul branch exists" (finding switch: true on the pinned tree);
    [ismat] = the operator is a MatrixOp; ns = number of phase states (any value) *)
 Record prodinfo := mkPI { pi_shape : shape; pi_op : list nat -> list nat; pi_st : list nat -> list nat }.
-Definition vprod (q ismat : bool) (A B : shape) (ns : nat) : option prodinfo :=
-  if q && ismat && mp_inplace_ok A B
+Definition vprod (ismat : bool) (A B : shape) (ns : nat) : option prodinfo :=
+  if ismat && mp_inplace_ok A B
   then Some (mkPI B (mp_inplace_op A B) (np_proj B))
   else match prod_shape A B ns with
        | Some r => Some (mkPI (removelast r)
@@ -180,11 +183,11 @@ Record vop := mkVop { vshape : shape; vget : list nat -> op S; vmat : bool }.
 (* a batched state matrix *)
 Record vsm := mkVsm { bshape : shape; sget : list nat -> sm S }.
 
-Definition vapply (q : bool) (ns : nat) (o : vop) (s : vsm) : option vsm :=
+Definition vapply (ns : nat) (o : vop) (s : vsm) : option vsm :=
   match prepare (vshape o) (bshape s) with
   | None => None
   | Some B' =>
-      match vprod q (vmat o) (vshape o) B' ns with
+      match vprod (vmat o) (vshape o) B' ns with
       | None => None
       | Some p => Some (mkVsm (pi_shape p)
                     (fun idx => apply (vget o (pi_op p idx))
@@ -192,10 +195,10 @@ Definition vapply (q : bool) (ns : nat) (o : vop) (s : vsm) : option vsm :=
       end
   end.
 
-Fixpoint vrun (q : bool) (ns : nat) (ops : list vop) (s : vsm) : option vsm :=
+Fixpoint vrun (ns : nat) (ops : list vop) (s : vsm) : option vsm :=
   match ops with
   | [] => Some s
-  | o :: r => match vapply q ns o s with Some s' => vrun q ns r s' | None => None end
+  | o :: r => match vapply ns o s with Some s' => vrun ns r s' | None => None end
   end.
 
 (* the scalar run at grid index idx: every operator with that index's coefficients *)
@@ -255,11 +258,11 @@ Definition prod_check (A B : shape) (ns : nat) (obs : option shape)
   forallb (fun t => match t with (idx, oi, si) =>
              shape_eqb (prod_op A B idx) oi && shape_eqb (prod_st B ns idx) si end) samples.
 
-(* verdict of matrix_prod(inplace=True) on the pinned tree (q = true) or the repaired one:
+(* verdict of matrix_prod(inplace=True):
    batch shape of the result, and elements read at sample batch indices *)
-Definition mprod_check (q : bool) (A B : shape) (ns : nat) (obs : option shape)
+Definition mprod_check (A B : shape) (ns : nat) (obs : option shape)
            (samples : list (list nat * list nat * list nat)) : bool :=
-  match vprod q true A B ns, obs with
+  match vprod true A B ns, obs with
   | None, None => true
   | Some p, Some r =>
       shape_eqb (pi_shape p) r &&
